@@ -58,7 +58,7 @@ fn make_limit(
     cs: &Rc<ConsumerShared>,
     limits: &mut Limits,
 ) -> (BoxL, usize) {
-    let st = Rc::new(RefCell::new(LimTapState { pulled: None, base, last: PollRes::NotPolled, epoch: 0, is_tail }));
+    let st = Rc::new(RefCell::new(LimTapState { pulled: None, base, last: PollRes::NotPolled, epoch: 0, is_tail, stage_ended: false }));
     let (inner, src, announced): (BoxL, usize, Option<usize>) = match spec.kind {
         LimKind::EyeballSubscribe | LimKind::EyeballSubscribeReset => {
             // share an existing live eyeball source if asked to, else create one
